@@ -169,10 +169,10 @@ def walk_jobs(A, src, rng, falff=False):
     """the random-walk measures on one (strongly) connected weighted input."""
     n = len(A)
     out = [J("mean_first_passage_time", A, src), J("diffusion_efficiency", A, src),
-           J("pagerank_centrality:1/2", A, src, dp=1, dq=2),
-           J("pagerank_centrality:17/20", A, src, dp=17, dq=20)]
+           J("pagerank_centrality:d=0.5", A, src, dp=1, dq=2),
+           J("pagerank_centrality:d=0.85", A, src, dp=17, dq=20)]
     if falff:
-        out.append(J("pagerank_centrality:17/20:falff", A, src, dp=17, dq=20,
+        out.append(J("pagerank_centrality:d=0.85:falff", A, src, dp=17, dq=20,
                      f=[rng.randint(1, 3) for _ in range(n)]))
     return out
 
